@@ -1,15 +1,28 @@
 ------------------------------ MODULE TraceC06 ------------------------------
-(* Code -> spec for C06: each case is one upstream program with its derived reader module,       *)
+(* Code -> spec for C06.  A case with fam = "prog" is one upstream program with its derived       *)
+(* reader module,                                                                                *)
 (*   [slots |-> <<[n, ta, tb |-> [pythonpath |-> t, imports_map |-> t, pickled |-> t]]>>,          *)
 (*    errs |-> [cfg |-> <<error names of B's analysis>>]]                                         *)
+(* judged by CaseFails; a case with fam = "dag" | "gen" is one WORLD of upstream modules           *)
+(*   [w |-> the world as StubWorld.tla exported it, reads |-> the reads it derived,                *)
+(*    decls |-> the declarations the real analyses of the upstream modules inferred,              *)
+(*    seen |-> [cfg |-> <<B's type of read j>>], errs]                                             *)
+(* judged by WorldFails (StubImport.tla, section WORLDS).  For every world a STAT line reports     *)
+(* how many of its reads the recorded upstream declarations give a definite type (vacuity guards). *)
 EXTENDS StubImport, Json, IOUtils, TLCExt
 
 Cases == JsonDeserialize(IOEnv.TRACE_FILE)
 VARIABLE i
 TInit == i = 1 /\ TLCSet(1, FALSE)
 TNext == /\ i <= Len(Cases) /\ i' = i + 1 /\ (i' > Len(Cases) => TLCSet(1, TRUE))
+IsWorld(c) == c.fam # "prog"
+Fails(c) == IF IsWorld(c) THEN WorldFails(c) ELSE CaseFails(c)
+Exp(c) == IF IsWorld(c) THEN [j \in DOMAIN c.reads |-> PathType(c.decls, c.reads[j])] ELSE <<>>
+Judged(c) == {j \in DOMAIN c.reads : PathType(c.decls, c.reads[j])[1] \notin {"unknown", "any"}}
 Ok == i <= Len(Cases) =>
-        LET f == CaseFails(Cases[i]) IN
-          f = {} \/ PrintT(<<"BAD", ToJson([i |-> i, fails |-> f])>>)
+        LET c == Cases[i]
+            f == Fails(c) IN
+          /\ (~IsWorld(c) \/ PrintT(<<"STAT", ToJson([i |-> i, judged |-> Cardinality(Judged(c))])>>))
+          /\ (f = {} \/ PrintT(<<"BAD", ToJson([i |-> i, fails |-> f, exp |-> Exp(c)])>>))
 Done == TLCGet(1)
 =============================================================================
